@@ -37,6 +37,7 @@ func init() {
 		},
 		Cases:       func(tier string) int { return pick(tier, 16000, 500000) },
 		Run:         c07Run,
+		Driver:      c07Driver,
 		MinDistinct: func(tier string) int { return pick(tier, 300, 900) },
 	})
 }
@@ -240,6 +241,7 @@ func (g *c07Gen) call(m c07Macro) *sx.N {
 }
 
 func c07Run(w *fw.W, idx int) {
+	w.Count("c07_cases", 1)
 	switch idx % 4 {
 	case 2:
 		c07Quasi(w, idx)
@@ -252,6 +254,8 @@ func c07Run(w *fw.W, idx int) {
 	default:
 		if idx%32 == 9 {
 			c07Depth(w, idx) // c07_depth.go
+		} else if idx%16 == 4 {
+			c07Overlap(w, idx) // c07_overlap.go
 		} else if idx%8 == 5 {
 			c07Live(w, idx) // c07_live.go
 		} else {
@@ -393,7 +397,16 @@ func c07Macros(w *fw.W, idx int) {
 // trace and outcome with those of the real run (rr, t1).  declined: the model does not
 // predict this program (fuel / a construct it is unsure about).
 func c07AgainstModel(forms []*sx.N, rr *rt.R, t1 rt.Transcript) (bad string, declined bool, in *refint.Interp) {
+	return c07AgainstModelWith(forms, rr, t1, nil)
+}
+
+// c07AgainstModelWith: setup (optional) prepares the model before the forms are loaded;
+// when the model declines, bad carries its reason.
+func c07AgainstModelWith(forms []*sx.N, rr *rt.R, t1 rt.Transcript, setup func(*refint.Interp)) (bad string, declined bool, in *refint.Interp) {
 	in = refint.New()
+	if setup != nil {
+		setup(in)
+	}
 	_, merr := func() (mv *refint.V, me *refint.Err) {
 		defer func() {
 			if rec := recover(); rec != nil {
@@ -403,7 +416,7 @@ func c07AgainstModel(forms []*sx.N, rr *rt.R, t1 rt.Transcript) (bad string, dec
 		return in.LoadForms(forms)
 	}()
 	if merr != nil && (merr.Fuel || merr.Unsure) {
-		return "", true, in
+		return merr.Cond, true, in
 	}
 	if len(rr.Trace) != len(in.Trace) {
 		bad = fmt.Sprintf("effect trace length %d vs model %d", len(rr.Trace), len(in.Trace))
